@@ -84,6 +84,18 @@ CHECKS = {
         "trusted_base": ["Model/Showdown.v hand written; Spec/SpecPots.v written from the property text"],
         "assumptions": ["chip totals stay below 2^15 (i16)"],
     },
+
+    "C05": {
+        "harness": ["c05"], "level": "proof", "shortdeck": True,
+        "technique": "Coq theorems (key determines lane; sorted arrangement unique; image = mathematical suit relabeling) over an executable model of the canonicaliser + per-run replay of observations x 24 permutations",
+        "level_text": "Theorems over the executable model of Permutation::from/permute and Isomorphism::from: the shift-and-mask image is the mathematical suit relabeling, the canonical form is a relabeling of the original (pocket and board apart), it is invariant under all 24 relabelings, idempotent and recognised. Per run: every pre-flop observation and sampled flop/turn/river observations (uniform and biased to tied suit keys) x all 24 permutations: canonical form, idempotence, is_canonical and every permuted image compared with the extracted model and judged by the extracted relabeling specification.",
+        "level_note": "Trusted: Coq kernel, hand-written model (validated per run), translator (key order, exhaust table, masks), extraction + glue, harness.",
+        "rule": "iso: observation (pocket, board) -> canon, canon(canon), is_canonical, and for each of the 24 permutations the permuted observation and its canon; all 1,326 (630) pre-flop observations, random flop/turn/river, and observations biased to tied suit keys (equal lane sizes, equal min/max ranks)",
+        "exhaustive": {"quick": False, "thorough": False},
+        "explanation": "observation x 24 permutations vs extracted model; relabeling specification evaluated on the implementation's outputs",
+        "trusted_base": ["Model/Iso.v hand written; Spec/SpecIso.v written from the property text"],
+        "assumptions": ["observations have 2 private and 0/3/4/5 board cards, disjoint, inside the deck"],
+    },
     "C15": {
         "harness": "c15", "level": "proof",
         "technique": "Coq theorems (round trips, injectivity, key-set NoDup by reflection) over an executable codec model + per-run model/implementation correspondence on integer codes",
